@@ -120,8 +120,12 @@ func Footprint(v *vrt.Ctx) {
 		// state and engine debugging on, each session with a debug writer of
 		// its own: the flag-name registry is process-wide and must only be read
 		cfg.EngineDebug = true
-		enA = engine.NewEngine(cfg, resourceOver(shared, which)).WithDebug(engine.NewSimpleDebug(&app.Sink{}))
-		enB = engine.NewEngine(cfg, resourceOver(shared, which)).WithDebug(engine.NewSimpleDebug(&app.Sink{}))
+		mk := func() *engine.DefaultEngine {
+			st := state.NewState(cfg.FlagCount)
+			st.UseDebug() // (the engine itself only does this with a persister)
+			return engine.NewEngine(cfg, resourceOver(shared, which)).WithState(st).WithDebug(engine.NewSimpleDebug(&app.Sink{}))
+		}
+		enA, enB = mk(), mk()
 	}
 	// initialise both (package initialisers have run); from here on every
 	// write is checked
@@ -143,6 +147,40 @@ func Footprint(v *vrt.Ctx) {
 	v.Cover("C19/history-done")
 }
 
+// Validators: two sessions, each with an engine of its own, each registering
+// an additional input format through its engine (DefaultEngine.AddValidInput).
+// The registry behind it is a package-level map in vm (finding F26): the write
+// is a footprint violation, the second engine's registration is refused
+// because the first one took the key, and the first engine's format is
+// accepted by the second session.
+func Validators(v *vrt.Ctx) {
+	ctx := context.Background()
+	what := v.Param("what")
+	shared := sharedFrom(apps.Get(0))
+	v.MarkShared(shared)
+	cfg := engine.Config{Root: "root", FlagCount: 4, OutputSize: 80}
+	enA := engine.NewEngine(cfg, resourceOver(shared, 0))
+	enB := engine.NewEngine(cfg, resourceOver(shared, 0))
+	v.Finding("F26-input-validators-are-process-wide", true)
+	switch what {
+	case 0: // the write itself
+		v.TrackFootprint(true)
+		enA.AddValidInput("^%a$")
+		v.TrackFootprint(false)
+	case 1: // the second engine cannot register: the first one took the key
+		v.Assert(enA.AddValidInput("^%a$") == nil, "C19/engine-registers-its-input-format")
+		v.Assert(enB.AddValidInput("^%b$") == nil, "C19/second-engine-registers-its-input-format")
+	case 2: // session B never registered "%a": its engine must refuse it
+		v.Assert(enA.AddValidInput("^%a$") == nil, "C19/engine-registers-its-input-format")
+		enB.Exec(ctx, nil)
+		enB.Flush(ctx, &app.Sink{})
+		_, err := enB.Exec(ctx, []byte("%a"))
+		v.Assert(err != nil, "C19/format-registered-by-one-engine-is-not-accepted-by-another")
+	}
+	v.Cover("C19/validators")
+}
+
 var Harnesses = map[string]func(*vrt.Ctx){
+	"Validators": Validators,
 	"Footprint": Footprint,
 }
